@@ -437,7 +437,25 @@ type walker struct {
 	nextID int
 	h      *hinfo
 	stack  []string
+	// C18: functions already walked (from any handler), and packages of the module loaded to follow calls into them
+	visited map[*ast.FuncDecl]bool
+	foreign map[string]*foreignPkg // import path -> package (nil entry: could not be loaded)
+	pkgKey  map[*pkgInfo]string
 }
+
+// foreignPkg is another package of the repository's module, parsed so that calls into it can be followed.
+type foreignPkg struct {
+	p     *pkgInfo
+	types map[string]bool // type names declared there (T(x) is a conversion, not a call)
+}
+
+// viperNames: the local names under which github.com/spf13/viper is imported in any walked file ("viper" unless renamed).
+var viperNames = map[string]bool{"viper": true}
+
+const viperPath = "github.com/spf13/viper"
+
+// viperWrites: calls that store into the configuration; harmless when every stored value is a literal.
+var viperWrites = map[string]bool{"Set": true, "SetDefault": true}
 
 var scalarReads = map[string]bool{"GetString": true, "GetBool": true, "GetInt": true, "GetInt32": true, "GetInt64": true,
 	"GetUint": true, "GetUint8": true, "GetUint16": true, "GetUint32": true, "GetUint64": true, "GetFloat64": true, "GetTime": true,
@@ -454,7 +472,7 @@ func isViperCall(c *ast.CallExpr) (string, bool) {
 		return "", false
 	}
 	x, ok := s.X.(*ast.Ident)
-	if !ok || x.Name != "viper" {
+	if !ok || !viperNames[x.Name] {
 		return "", false
 	}
 	return s.Sel.Name, true
@@ -469,10 +487,84 @@ func (w *walker) addRow(r *rrow) int {
 }
 
 type frame struct {
-	env     map[string]sym
+	env     map[string][]binding // variable name -> stack of bindings (innermost scope last)
+	depth   int                  // current lexical depth inside the function body
 	memo    map[*ast.CallExpr]int
 	mapVars map[string][]int // variable name -> read rows whose map it held
 	parents []ast.Node
+}
+
+type binding struct {
+	v     sym
+	depth int
+}
+
+func newFrame() *frame {
+	return &frame{env: map[string][]binding{}, memo: map[*ast.CallExpr]int{}, mapVars: map[string][]int{}}
+}
+
+func symEq(a, b sym) bool {
+	if a.mapRow != b.mapRow || len(a.elems) != len(b.elems) {
+		return false
+	}
+	for i := range a.elems {
+		if a.elems[i] != b.elems[i] {
+			return false
+		}
+	}
+	return true
+}
+
+func (fr *frame) get(name string) (sym, bool) {
+	st := fr.env[name]
+	if len(st) == 0 {
+		return sym{}, false
+	}
+	return st[len(st)-1].v, true
+}
+
+// define: `name := v` / `var name = v` / a parameter.  A second definition at the same depth is a re-assignment.
+func (fr *frame) define(name string, v sym) {
+	st := fr.env[name]
+	if len(st) > 0 && st[len(st)-1].depth == fr.depth {
+		fr.assign(name, v)
+		return
+	}
+	fr.env[name] = append(st, binding{v, fr.depth})
+}
+
+// assign: `name = v`.  The analysis is flow-insensitive, so a variable that can hold two different values is unknown.
+func (fr *frame) assign(name string, v sym) {
+	st := fr.env[name]
+	if len(st) == 0 {
+		fr.env[name] = []binding{{v, fr.depth}}
+		return
+	}
+	top := &st[len(st)-1]
+	if !symEq(top.v, v) {
+		rows := top.v.mapRow
+		top.v = unknownSym("variable " + name + " is assigned more than once")
+		_ = rows
+	}
+}
+
+func (fr *frame) leave() {
+	for name, st := range fr.env {
+		for len(st) > 0 && st[len(st)-1].depth > fr.depth {
+			st = st[:len(st)-1]
+		}
+		fr.env[name] = st
+	}
+}
+
+// scopeNode: nodes that open a lexical scope.
+func scopeNode(n ast.Node) bool {
+	switch n.(type) {
+	case *ast.BlockStmt, *ast.IfStmt, *ast.ForStmt, *ast.RangeStmt, *ast.SwitchStmt, *ast.TypeSwitchStmt, *ast.CaseClause,
+		*ast.CommClause, *ast.SelectStmt, *ast.FuncLit:
+		return true
+	}
+	return false
 }
 
 var convNames = map[string]bool{"int": true, "int8": true, "int16": true, "int32": true, "int64": true, "uint": true, "uint8": true,
@@ -509,11 +601,31 @@ func (w *walker) feedsOf(fr *frame, self ast.Node) string {
 				}
 			}
 			return "keyvalue:" + exprText(n.Key)
-		case *ast.AssignStmt:
-			if len(n.Lhs) > 0 {
-				return "var:" + exprText(n.Lhs[0])
+		case *ast.IndexExpr:
+			if n.X != child {
+				return "index-key"
 			}
-			return "var:?"
+			// m[k]: only membership is used when the value lands in the blank identifier of `_, ok := m[k]`
+			if i > 0 {
+				if as, ok := fr.parents[i-1].(*ast.AssignStmt); ok && blankCommaOk(as, n) {
+					return "index-exists"
+				}
+			}
+			return "index-value"
+		case *ast.AssignStmt:
+			// "var:" only for a plain local identifier (tracked by name afterwards); a store into a field, an
+			// element or a dereference escapes the analysis of the variable's uses
+			if len(n.Lhs) == len(n.Rhs) {
+				for j, rhs := range n.Rhs {
+					if rhs == child {
+						if id, ok := n.Lhs[j].(*ast.Ident); ok {
+							return "var:" + id.Name
+						}
+						return "store:" + exprText(n.Lhs[j])
+					}
+				}
+			}
+			return "store:?"
 		case *ast.ValueSpec:
 			if len(n.Names) > 0 {
 				return "var:" + n.Names[0].Name
@@ -539,6 +651,15 @@ func (w *walker) feedsOf(fr *frame, self ast.Node) string {
 	return "other:top"
 }
 
+// blankCommaOk: as is `_, ok := ix` / `_, ok = ix` (the indexed value itself is discarded).
+func blankCommaOk(as *ast.AssignStmt, ix *ast.IndexExpr) bool {
+	if len(as.Lhs) != 2 || len(as.Rhs) != 1 || as.Rhs[0] != ast.Expr(ix) {
+		return false
+	}
+	id, ok := as.Lhs[0].(*ast.Ident)
+	return ok && id.Name == "_"
+}
+
 // eval turns a string-valued expression into a path pattern; viper reads met on the way become rows.
 func (w *walker) eval(e ast.Expr, fr *frame) sym {
 	switch e := e.(type) {
@@ -559,7 +680,7 @@ func (w *walker) eval(e ast.Expr, fr *frame) sym {
 		}
 		return unknownSym("operator " + e.Op.String())
 	case *ast.Ident:
-		if v, ok := fr.env[e.Name]; ok {
+		if v, ok := fr.get(e.Name); ok {
 			return v
 		}
 		return unknownSym("identifier " + e.Name)
@@ -575,6 +696,9 @@ func (w *walker) eval(e ast.Expr, fr *frame) sym {
 		if _, ok := isViperCall(e); ok {
 			id := w.viperCall(e, fr)
 			r := w.rowByID(id)
+			if r == nil {
+				return unknownSym("result of a viper call that returns nothing")
+			}
 			if r.mapCall {
 				return sym{mapRow: id, elems: []pelem{{kind: "unknown", s: "map value used as a string"}}}
 			}
@@ -586,9 +710,60 @@ func (w *walker) eval(e ast.Expr, fr *frame) sym {
 		if isConversion(e) {
 			return w.eval(e.Args[0], fr)
 		}
+		// strings.ToLower/ToUpper(x) as (part of) a key: viper compares keys case-insensitively, so the key denotes
+		// the same path as x
+		if t := exprText(e.Fun); (t == "strings.ToLower" || t == "strings.ToUpper") && len(e.Args) == 1 && w.p.imports["strings"] == "strings" {
+			return w.eval(e.Args[0], fr)
+		}
+		// a helper of the package that only returns an expression of its parameters (key builders)
+		if _, callees := w.localCallees(e); len(callees) == 1 {
+			if ret := singleReturn(callees[0]); ret != nil && len(w.stack) < 12 {
+				sub := newFrame()
+				i := 0
+				for _, fl := range callees[0].Type.Params.List {
+					for _, nm := range fl.Names {
+						if i < len(e.Args) {
+							sub.define(nm.Name, w.eval(e.Args[i], fr))
+						}
+						i++
+					}
+				}
+				w.stack = append(w.stack, "eval:"+callees[0].Name.Name)
+				v := w.eval(ret, sub)
+				w.stack = w.stack[:len(w.stack)-1]
+				// reads inside the helper are recorded by the statement walk of the helper, not here
+				return v
+			}
+		}
 		return unknownSym("call " + exprText(e.Fun))
 	}
 	return unknownSym(fmt.Sprintf("%T", e))
+}
+
+// singleReturn: the function's body is exactly `return <one expression>`.
+func singleReturn(fd *ast.FuncDecl) ast.Expr {
+	if fd.Body == nil || len(fd.Body.List) != 1 {
+		return nil
+	}
+	rs, ok := fd.Body.List[0].(*ast.ReturnStmt)
+	if !ok || len(rs.Results) != 1 {
+		return nil
+	}
+	return rs.Results[0]
+}
+
+// sameRead: two rows are the same viper call on the same key pattern.
+func (w *walker) sameRead(a, b int) bool {
+	ra, rb := w.rowByID(a), w.rowByID(b)
+	if ra == nil || rb == nil || ra.call != rb.call || len(ra.pat) != len(rb.pat) {
+		return false
+	}
+	for i := range ra.pat {
+		if ra.pat[i] != rb.pat[i] {
+			return false
+		}
+	}
+	return true
 }
 
 func (w *walker) rowByID(id int) *rrow {
@@ -627,11 +802,15 @@ func (w *walker) viperCall(c *ast.CallExpr, fr *frame) int {
 			r.valueUsed = false
 		case strings.HasPrefix(r.feeds, "var:"):
 			r.kind = "keys" // upgraded after the body walk when the variable is used for more than its keys
-		case r.feeds == "arg:len":
+		case r.feeds == "arg:len", r.feeds == "index-exists":
 			r.kind = "keys"
 		default:
 			r.valueUsed = true
 		}
+	case viperWrites[name] && len(c.Args) == 2 && isConstExpr(c.Args[1]):
+		// viper.Set/SetDefault(key, <literal>): stores a constant, reads nothing (the key's own reads were evaluated above)
+		fr.memo[c] = 0
+		return 0
 	case subtreeReads[name] && len(c.Args) >= 1:
 		r.kind, r.pat = "subtree", key.elems
 	case rootReads[name]:
@@ -643,6 +822,21 @@ func (w *walker) viperCall(c *ast.CallExpr, fr *frame) int {
 	id := w.addRow(r)
 	fr.memo[c] = id
 	return id
+}
+
+// isConstExpr: a literal, true/false/nil, or a signed literal.
+func isConstExpr(e ast.Expr) bool {
+	switch x := e.(type) {
+	case *ast.BasicLit:
+		return true
+	case *ast.Ident:
+		return x.Name == "true" || x.Name == "false" || x.Name == "nil"
+	case *ast.UnaryExpr:
+		return isConstExpr(x.X)
+	case *ast.ParenExpr:
+		return isConstExpr(x.X)
+	}
+	return false
 }
 
 func (w *walker) unknownRow(n ast.Node, why string) {
@@ -672,7 +866,7 @@ func (w *walker) localCallees(c *ast.CallExpr) (string, []*ast.FuncDecl) {
 }
 
 func (w *walker) walkFunc(fd *ast.FuncDecl, args []sym) {
-	key := fd.Name.Name
+	key := w.pkgKey[w.p] + fd.Name.Name
 	for _, s := range w.stack {
 		if s == key {
 			w.unknownRow(fd, "recursive call of "+key+" (not followed)")
@@ -686,26 +880,52 @@ func (w *walker) walkFunc(fd *ast.FuncDecl, args []sym) {
 	if fd.Body == nil {
 		return
 	}
+	if w.visited != nil {
+		w.visited[fd] = true
+	}
 	w.stack = append(w.stack, key)
 	defer func() { w.stack = w.stack[:len(w.stack)-1] }()
 
-	fr := &frame{env: map[string]sym{}, memo: map[*ast.CallExpr]int{}, mapVars: map[string][]int{}}
+	fr := newFrame()
 	i := 0
 	for _, fl := range fd.Type.Params.List {
 		for _, nm := range fl.Names {
 			if i < len(args) {
-				fr.env[nm.Name] = args[i]
+				fr.define(nm.Name, args[i])
 			}
 			i++
+		}
+	}
+	bind := func(id *ast.Ident, v sym, define bool) {
+		if old, ok := fr.get(id.Name); ok && old.mapRow > 0 && v.mapRow > 0 && w.sameRead(old.mapRow, v.mapRow) {
+			// m = viper.GetStringMap(k) again with the same key: the variable still holds "the map at k"
+			fr.mapVars[id.Name] = append(fr.mapVars[id.Name], v.mapRow)
+			return
+		}
+		if define {
+			fr.define(id.Name, v)
+		} else {
+			fr.assign(id.Name, v)
+		}
+		if v.mapRow > 0 {
+			fr.mapVars[id.Name] = append(fr.mapVars[id.Name], v.mapRow)
 		}
 	}
 	consumedSel := map[*ast.SelectorExpr]bool{}
 	ast.Inspect(fd.Body, func(n ast.Node) bool {
 		if n == nil {
+			top := fr.parents[len(fr.parents)-1]
 			fr.parents = fr.parents[:len(fr.parents)-1]
+			if scopeNode(top) {
+				fr.depth--
+				fr.leave()
+			}
 			return true
 		}
 		fr.parents = append(fr.parents, n)
+		if scopeNode(n) {
+			fr.depth++
+		}
 		switch n := n.(type) {
 		case *ast.AssignStmt:
 			if len(n.Lhs) == len(n.Rhs) {
@@ -713,21 +933,32 @@ func (w *walker) walkFunc(fd *ast.FuncDecl, args []sym) {
 					if id, ok := l.(*ast.Ident); ok && id.Name != "_" {
 						// evaluate with the right parent context: push the rhs path virtually
 						v := w.evalIn(n.Rhs[i], fr, n)
-						fr.env[id.Name] = v
-						if v.mapRow > 0 {
-							fr.mapVars[id.Name] = append(fr.mapVars[id.Name], v.mapRow)
+						if n.Tok != token.DEFINE && n.Tok != token.ASSIGN {
+							v = unknownSym("compound assignment to " + id.Name) // += and friends
 						}
+						bind(id, v, n.Tok == token.DEFINE)
 					}
 				}
+			} else {
+				// x, y := f(): nothing is known about the results
+				for _, l := range n.Lhs {
+					if id, ok := l.(*ast.Ident); ok && id.Name != "_" {
+						bind(id, unknownSym("one of several results of "+exprText(n.Rhs[0])), n.Tok == token.DEFINE)
+					}
+				}
+			}
+		case *ast.IncDecStmt:
+			if id, ok := n.X.(*ast.Ident); ok {
+				fr.assign(id.Name, unknownSym("modified variable "+id.Name))
 			}
 		case *ast.ValueSpec:
 			if len(n.Names) == len(n.Values) {
 				for i, id := range n.Names {
-					v := w.evalIn(n.Values[i], fr, n)
-					fr.env[id.Name] = v
-					if v.mapRow > 0 {
-						fr.mapVars[id.Name] = append(fr.mapVars[id.Name], v.mapRow)
-					}
+					bind(id, w.evalIn(n.Values[i], fr, n), true)
+				}
+			} else {
+				for _, id := range n.Names {
+					bind(id, unknownSym("declared variable "+id.Name), true)
 				}
 			}
 		case *ast.RangeStmt:
@@ -740,23 +971,33 @@ func (w *walker) walkFunc(fd *ast.FuncDecl, args []sym) {
 			}
 			if v.mapRow > 0 {
 				if id, ok := n.Key.(*ast.Ident); ok && id.Name != "_" {
-					fr.env[id.Name] = sym{elems: []pelem{{kind: "keyof", row: v.mapRow}}}
+					fr.define(id.Name, sym{elems: []pelem{{kind: "keyof", row: v.mapRow}}})
 				}
 				if valueBound {
 					w.rowByID(v.mapRow).valueUsed = true
+					if id, ok := n.Value.(*ast.Ident); ok {
+						fr.define(id.Name, unknownSym("range value over "+exprText(n.X)))
+					}
 				}
 			} else {
 				if id, ok := n.Key.(*ast.Ident); ok && id.Name != "_" {
-					fr.env[id.Name] = unknownSym("range key over " + exprText(n.X))
+					fr.define(id.Name, unknownSym("range key over "+exprText(n.X)))
 				}
 				if id, ok := n.Value.(*ast.Ident); ok && id.Name != "_" {
-					fr.env[id.Name] = unknownSym("range value over " + exprText(n.X))
+					fr.define(id.Name, unknownSym("range value over "+exprText(n.X)))
+				}
+			}
+		case *ast.FuncLit:
+			// parameters of a function literal shadow outer variables and are unknown
+			for _, fl := range n.Type.Params.List {
+				for _, nm := range fl.Names {
+					fr.define(nm.Name, unknownSym("parameter "+nm.Name+" of a function literal"))
 				}
 			}
 		case *ast.CompositeLit:
 			w.compositeLit(n, fr)
 		case *ast.SelectorExpr:
-			if x, ok := n.X.(*ast.Ident); ok && x.Name == "viper" && !consumedSel[n] {
+			if x, ok := n.X.(*ast.Ident); ok && viperNames[x.Name] && !consumedSel[n] {
 				w.unknownRow(n, "viper."+n.Sel.Name+" referenced other than as a direct call")
 			}
 		case *ast.CallExpr:
@@ -770,12 +1011,8 @@ func (w *walker) walkFunc(fd *ast.FuncDecl, args []sym) {
 				w.viperCall(n, fr)
 				break
 			}
-			if s, ok := n.Fun.(*ast.SelectorExpr); ok {
-				if x, ok := s.X.(*ast.Ident); ok {
-					if path, isImport := w.p.imports[x.Name]; isImport && strings.Contains(path, "/core/internal/") {
-						w.unknownRow(n, "call into "+path+"."+s.Sel.Name+" (configuration reads there are not followed)")
-					}
-				}
+			if w.foreignCall(n, fr) {
+				break
 			}
 			name, callees := w.localCallees(n)
 			if len(callees) > 0 {
@@ -799,6 +1036,138 @@ func (w *walker) walkFunc(fd *ast.FuncDecl, args []sym) {
 			}
 		}
 	}
+}
+
+// modulePath reads the module line of ./go.mod (cwd = repository root).
+func modulePath() string {
+	b, err := os.ReadFile("go.mod")
+	if err != nil {
+		return ""
+	}
+	for _, ln := range strings.Split(string(b), "\n") {
+		f := strings.Fields(ln)
+		if len(f) == 2 && f[0] == "module" {
+			return f[1]
+		}
+	}
+	return ""
+}
+
+var modPath = ""
+
+// loadForeign parses another package of the module (non-test files) so that calls into it can be followed.
+func (w *walker) loadForeign(path string) *foreignPkg {
+	if fp, ok := w.foreign[path]; ok {
+		return fp
+	}
+	w.foreign[path] = nil
+	dir := strings.TrimPrefix(strings.TrimPrefix(path, modPath), "/")
+	if dir == "" {
+		dir = "."
+	}
+	names, err := filepath.Glob(filepath.Join(dir, "*.go"))
+	if err != nil || len(names) == 0 {
+		return nil
+	}
+	sort.Strings(names)
+	fp := &foreignPkg{p: &pkgInfo{fset: w.p.fset, funcs: map[string][]*ast.FuncDecl{}, imports: map[string]string{}}, types: map[string]bool{}}
+	for _, n := range names {
+		if strings.HasSuffix(n, "_test.go") {
+			continue
+		}
+		f, err := parser.ParseFile(fp.p.fset, n, nil, parser.ParseComments)
+		if err != nil {
+			return nil
+		}
+		if hasVerifTag(f) {
+			continue
+		}
+		fp.p.files = append(fp.p.files, f)
+		noteImports(f, fp.p.imports)
+		for _, d := range f.Decls {
+			switch d := d.(type) {
+			case *ast.FuncDecl:
+				fp.p.funcs[d.Name.Name] = append(fp.p.funcs[d.Name.Name], d)
+			case *ast.GenDecl:
+				for _, sp := range d.Specs {
+					if ts, ok := sp.(*ast.TypeSpec); ok {
+						fp.types[ts.Name.Name] = true
+					}
+				}
+			}
+		}
+	}
+	w.foreign[path] = fp
+	w.pkgKey[fp.p] = path + "."
+	return fp
+}
+
+// noteImports records the file's imports and every local name of the viper package.
+func noteImports(f *ast.File, into map[string]string) {
+	for _, im := range f.Imports {
+		path, _ := strconv.Unquote(im.Path.Value)
+		name := path[strings.LastIndex(path, "/")+1:]
+		if im.Name != nil {
+			name = im.Name.Name
+		}
+		into[name] = path
+		if path == viperPath {
+			viperNames[name] = true
+		}
+	}
+}
+
+// foreignCall: a call pkg.F(...) into another package of the repository's module is followed (its configuration
+// reads belong to the handler being walked); if it cannot be followed it becomes an unknown row.  Returns true when
+// the call was package-qualified (handled here).
+func (w *walker) foreignCall(c *ast.CallExpr, fr *frame) bool {
+	s, ok := c.Fun.(*ast.SelectorExpr)
+	if !ok {
+		return false
+	}
+	x, ok := s.X.(*ast.Ident)
+	if !ok {
+		return false
+	}
+	if _, shadowed := fr.get(x.Name); shadowed {
+		return false
+	}
+	path, isImport := w.p.imports[x.Name]
+	if !isImport {
+		return false
+	}
+	if modPath == "" || !(path == modPath || strings.HasPrefix(path, modPath+"/")) {
+		return true // standard library / third party: no access to Burrow's configuration other than through viper
+	}
+	fp := w.loadForeign(path)
+	if fp == nil {
+		w.unknownRow(c, "call into "+path+"."+s.Sel.Name+" (package could not be read)")
+		return true
+	}
+	if fp.types[s.Sel.Name] {
+		return true // conversion T(x)
+	}
+	var fds []*ast.FuncDecl
+	for _, d := range fp.p.funcs[s.Sel.Name] {
+		if d.Recv == nil {
+			fds = append(fds, d)
+		}
+	}
+	if len(fds) == 0 {
+		w.unknownRow(c, "call of "+path+"."+s.Sel.Name+", which is not a function declared there (function value?)")
+		return true
+	}
+	var as []sym
+	for _, a := range c.Args {
+		as = append(as, w.evalIn(a, fr, c))
+	}
+	saved := w.p
+	w.p = fp.p
+	for _, d := range fds {
+		w.walkFunc(d, as)
+	}
+	w.p = saved
+	return true
 }
 
 // evalIn evaluates e as if visited below parent `par` (used from pre-order visits, before Inspect descends).
@@ -891,6 +1260,17 @@ func mapVarValueUsed(body *ast.BlockStmt, name string) bool {
 				}
 			case *ast.KeyValueExpr:
 				if par.Key != n {
+					used = true
+				}
+			case *ast.IndexExpr:
+				// `_, ok := m[k]` uses membership only
+				keysOnly := false
+				if par.X == n && len(parents) > 1 {
+					if as, ok := parents[len(parents)-2].(*ast.AssignStmt); ok && blankCommaOk(as, par) {
+						keysOnly = true
+					}
+				}
+				if !keysOnly {
 					used = true
 				}
 			default:
@@ -999,16 +1379,41 @@ func classifyFeed(e ast.Expr, p *pkgInfo) (string, string) {
 			if len(p.funcs[f.Name]) > 0 {
 				return "call", f.Name
 			}
+			if goBuiltins[f.Name] {
+				return "call", f.Name
+			}
 		case *ast.SelectorExpr:
 			t := exprText(f)
 			if strings.HasPrefix(t, "hc.App.LogLevel.") {
 				return "app", t
 			}
+			// a function of the standard library or of a third-party package (not viper, not this module): it has no
+			// access to Burrow's configuration; its arguments are walked like any other expression
+			if id, ok := f.X.(*ast.Ident); ok {
+				if path, isImport := p.imports[id.Name]; isImport && path != viperPath &&
+					!(modPath != "" && (path == modPath || strings.HasPrefix(path, modPath+"/"))) {
+					return "call", t
+				}
+			}
 		}
 		return "other", exprText(e)
+	case *ast.BinaryExpr:
+		k1, _ := classifyFeed(x.X, p)
+		k2, _ := classifyFeed(x.Y, p)
+		if k1 == "other" || k2 == "other" {
+			return "other", exprText(e)
+		}
+		return "var", exprText(e)
+	case *ast.IndexExpr:
+		if k, _ := classifyFeed(x.X, p); k == "other" {
+			return "other", exprText(e)
+		}
+		return "var", exprText(e)
 	}
 	return "other", exprText(e)
 }
+
+var goBuiltins = map[string]bool{"len": true, "cap": true, "make": true, "new": true, "append": true, "copy": true, "min": true, "max": true}
 
 func patCoq(pat []pelem) string {
 	// merge adjacent fixed parts
@@ -1041,6 +1446,77 @@ func patCoq(pat []pelem) string {
 var kindCoq = map[string]string{"exists": "KExists", "keys": "KKeys", "scalar": "KScalar", "children": "KChildren",
 	"subtree": "KSubtree", "unknown": "KUnknown"}
 
+// packagePass files every configuration read made OUTSIDE the handlers (Configure, Start, init, helpers nobody calls,
+// package-level initialisers) under the pseudo-handler "*": what they read may sit in package state (fields of the
+// coordinator, package variables) that every handler can see.  Its hinfo is not reported (C16 never sees it).
+func (w *walker) packagePass(handlers map[string]bool) {
+	p := w.p
+	w.h = &hinfo{name: "*", reqTypes: map[string]bool{}, params: map[string]bool{}}
+	if p.imports["."] == viperPath {
+		w.unknownRow(p.files[0], "dot-import of "+viperPath+": unqualified configuration reads are not recognised")
+	}
+	// every function name that is called (or mentioned) somewhere in the package: roots are the others
+	called := map[string]bool{}
+	for _, f := range p.files {
+		ast.Inspect(f, func(n ast.Node) bool {
+			if c, ok := n.(*ast.CallExpr); ok {
+				switch fn := c.Fun.(type) {
+				case *ast.Ident:
+					called[fn.Name] = true
+				case *ast.SelectorExpr:
+					called[fn.Sel.Name] = true
+				}
+			}
+			return true
+		})
+	}
+	var rest []*ast.FuncDecl
+	for _, f := range p.files {
+		for _, d := range f.Decls {
+			switch d := d.(type) {
+			case *ast.FuncDecl:
+				if w.visited[d] {
+					continue
+				}
+				if called[d.Name.Name] {
+					rest = append(rest, d)
+					continue
+				}
+				w.walkFunc(d, nil)
+			case *ast.GenDecl:
+				if d.Tok != token.VAR {
+					continue
+				}
+				// package-level initialisers: walked as the body of a synthetic function; a map read kept in a package
+				// variable is used by code this walk does not see, so its values count as used
+				first := len(w.rows)
+				var stmts []ast.Stmt
+				for _, sp := range d.Specs {
+					if vs, ok := sp.(*ast.ValueSpec); ok {
+						for _, v := range vs.Values {
+							stmts = append(stmts, &ast.ExprStmt{X: v})
+						}
+					}
+				}
+				if len(stmts) > 0 {
+					w.walkFunc(&ast.FuncDecl{Name: ast.NewIdent("(package variables)"), Type: &ast.FuncType{Params: &ast.FieldList{}},
+						Body: &ast.BlockStmt{List: stmts}}, nil)
+					for _, r := range w.rows[first:] {
+						if r.mapCall {
+							r.valueUsed = true
+						}
+					}
+				}
+			}
+		}
+	}
+	for _, d := range rest {
+		if !w.visited[d] {
+			w.walkFunc(d, nil)
+		}
+	}
+}
+
 func analyse(p *pkgInfo) (*walker, []*hinfo) {
 	rts, _ := p.routes()
 	seen := map[string]bool{}
@@ -1057,7 +1533,11 @@ func analyse(p *pkgInfo) (*walker, []*hinfo) {
 	}
 	// the two response writers are reachable from every handler; walking them on their own as well keeps their
 	// reads visible even if a handler reaches them through a path the walk does not understand
-	w := &walker{p: p}
+	w := &walker{p: p, visited: map[*ast.FuncDecl]bool{}, foreign: map[string]*foreignPkg{}, pkgKey: map[*pkgInfo]string{p: ""}}
+	modPath = modulePath()
+	for _, f := range p.files {
+		noteImports(f, map[string]string{})
+	}
 	var infos []*hinfo
 	for _, h := range hs {
 		hi := &hinfo{name: h, reqTypes: map[string]bool{}, params: map[string]bool{}}
@@ -1070,6 +1550,7 @@ func analyse(p *pkgInfo) (*walker, []*hinfo) {
 		}
 		infos = append(infos, hi)
 	}
+	w.packagePass(seen)
 	// finalise map-valued reads
 	for _, r := range w.rows {
 		if r.mapCall && r.valueUsed {
